@@ -354,6 +354,36 @@ def run_check(tier, seed):
     pr.prove_cegar('every representable rate (and the default) reaches thread_manager::run on some path (refusals for other reasons, e.g. PHC options, are separate paths)',
                    z3.Or(z3.Not(some), rate * 1000 < U32), reach, confirm, lambda m: [], need_reach=False)
     ck.absorb(pr)
+    # the value's way from thread_manager::run to the updater: spawn closure capture -> shm_writer::run -> ShmUpdater::new
+    try:
+        from .thread_exit import drift_chain
+        from .daemon_extract import load_dlib_program
+        dprog, _w2 = load_dlib_program()
+        param, links = drift_chain(dprog)
+        prl = Prover(seed); prl.add(param >= 0, param < U32)
+        for name, term in links:
+            if term is None:
+                ck.inconclusive.append('rate hand-over not extracted: ' + name)
+            else:
+                def confirm_link(m, name=name):
+                    # the model's value is in ppb; the command line takes ppm: replay with the rates around it and with the largest one
+                    v = mval(m, param) or 0
+                    for r in sorted({max(1, min(4294967, (v + 999) // 1000)), max(1, min(4294967, v // 1000)), 4294967}):
+                        nat = native_drift(r)
+                        pub = nat.get('published_max_drift_ppb')
+                        if pub is not None and pub != r * 1000:
+                            confirmed[0] += 1
+                            ck.violation('drift-changed-inside-the-daemon', 'the real release binary started with --max-drift-rate %d published max_drift_ppb = %d, expected %d (%s)' % (r, pub, r * 1000, name),
+                                         {'cmd': 'clockbound --max-drift-rate %s' % r, 'native': nat})
+                            return 'hand-over'
+                    return None
+                kk = z3.Int('hint_k_ppm')
+                prl.prove_cegar('hand-over inside the daemon: %s, unchanged (all 2^32 values)' % name, z3.BoolVal(True), term == param,
+                                confirm_link, lambda m: [], need_reach=False, hints=[[param == kk * 1000, kk >= 1, kk <= 4294967]])
+        ck.absorb(prl)
+        ck.cov['functions_encoded'] += ['thread_manager::run (prefix: closure captures)', 'thread_manager::run::{closure#1}', 'shm_writer::run']
+    except EngineError as e:
+        ck.inconclusive.append('rate hand-over inside the daemon: %s' % e)
     # the record's max_drift_ppb reaches the segment on every write(), also on a segment a previous daemon left behind
     try:
         from .seqlock_model import Programs
@@ -370,6 +400,6 @@ def run_check(tier, seed):
     ck.cov['paths_to_run'] = len(hits); ck.cov['other_path_ends'] = len(ends)
     ck.cov['counterexamples_confirmed'] = confirmed[0]
     ck.cov['bounds'] = {'option': 'None or any of the 2^32 u32 values', 'profile': 'release (plain Mul wraps, as in the installed binary)',
-                        'outside': 'clap\'s own parsing of the option string; what happens after thread_manager::run received the value (C08 asserts the field is copied verbatim into every record)'}
+                        'outside': 'clap\'s own parsing of the option string; ShmUpdater::new -> every record is C08\'s subject (the field is copied verbatim)'}
     ck.cov['rule'] = 'one obligation per path of main reaching run() and per rate-dependent path that does not'
     return ck.finish()
